@@ -40,6 +40,7 @@ fn replay_dispatch(ctx: &Ctx, id: &str, case: &serde_json::Value) {
                         "C14" => c14::replay(ctx, &case),
                         "C07" => c07::replay(ctx, &case),
                         "C13" => c13::replay(ctx, &case),
+                        "C17" => c17::replay(ctx, &case),
                         "C18" => c18::replay(ctx, &case),
                         "C19" => c19::replay(ctx, &case),
                         _ => usage(),
